@@ -391,6 +391,29 @@ MUTANTS += [
       [("        try:\n            component_handler = self.component_handlers[self.comp]\n        except KeyError:\n            logging.warning(\"unknown component %r in time-range filter\", self.comp)\n            return False\n        return component_handler(\n            self.start,\n            self.end,\n            # TODO",
         "        if \"DTSTART\" not in vs:\n            return False\n        try:\n            component_handler = self.component_handlers[self.comp]\n        except KeyError:\n            logging.warning(\"unknown component %r in time-range filter\", self.comp)\n            return False\n        return component_handler(\n            self.start,\n            self.end,\n            # TODO")],
       "indexed time-range answers False without DTSTART (VTODO with only DUE matches on the naive path)"),
+    M("text-match-index-universal", {"C11": ["I4"]}, IC,
+      [("        return any(\n            self.match(self.type_fn(self.type_fn.from_ical(k))) for k in indexes[None]\n        )",
+        "        return all(\n            self.match(self.type_fn(self.type_fn.from_ical(k))) for k in indexes[None]\n        )")],
+      "indexed text-match is universal over the values: a component without the property matches"),
+    M("post-location-from-path", {"C01": ["W9"]}, D,
+      [("            urllib.parse.urljoin(ensure_trailing_slash(base_href), name)", "            urllib.parse.urljoin(ensure_trailing_slash(path), name)")],
+      "Location of a POSTed member is joined onto the backend path (no mount prefix)"),
+    M("tree-create-recursive", {"C01": ["W8"]}, G,
+      [("        os.mkdir(path)\n        return cls(dulwich.repo.Repo.init(path))", "        os.makedirs(path)\n        return cls(dulwich.repo.Repo.init(path))")],
+      "TreeGitStore.create makes missing parents: MKCOL below a missing collection answers 201"),
+    M("sync-token-wrapped", {"C07": ["T10"]}, SY,
+      [("        ret.text = self.token\n", "        ret.text = \"urn:x-sync:\" + self.token\n")],
+      "REPORT wraps the sync token, the DAV:sync-token property does not"),
+    M("trailing-slash-keeps-empty", {"C16": ["H3"]}, D,
+      [("    if href.endswith(\"/\"):\n        return href\n    return href + \"/\"", "    if not href or href.endswith(\"/\"):\n        return href\n    return href + \"/\"")],
+      "ensure_trailing_slash leaves the empty SCRIPT_NAME empty (relative principal href)"),
+    M("metadata-save-skips-empty", {"C15": ["M14"]}, CF,
+      [("        if self._save_cb is None:\n            return\n        self._save_cb(self._configparser, message)",
+        "        if self._save_cb is None:\n            return\n        if not any(self._configparser.values()):\n            return\n        self._save_cb(self._configparser, message)")],
+      "removing the last property of a collection is acknowledged and not saved"),
+    M("post-create-via-thread", {"C03": ["P7"]}, W,
+      [("        try:\n            (name, etag) = self.store.import_one(name, content_type, contents)", "        try:\n            (name, etag) = await to_thread(self.store.import_one, name, content_type, contents)")],
+      "create_member suspends between the If-None-Match check and the create"),
 ]
 
 BENIGN: List[M] = [
